@@ -26,15 +26,16 @@ func init() {
 			"(CMP) Equals/GreaterThanOrEqual/LessThanOrEqual/GreaterThan/LessThan.Eval map the outcomes of Compare (<, =, >, NULL operand, and for tuple equality 'unequal with a NULL element') to the SQL truth value, and comparison.Compare reports a NULL operand as (0, ErrNilOperand); " +
 			"(IN) InTuple.Eval, folded over {left NULL, left value} x lists of one and two elements of kinds {equal, less, greater, NULL-typed, NULL-valued, tuple-with-NULL equal elsewhere, tuple-with-NULL unequal elsewhere}, equals the Kleene OR of the folded Equals table applied to each element, and NewNotInTuple is Not(InTuple(left, right)); " +
 			"(HIN) HashInTuple.Eval, the form applyHashIn rewrites IN into, folded over {left NULL, value} x {conversion in range, underflow, overflow} x {probe hit, miss} x {list had NULL, not}, yields what IN yields (hit TRUE; no match NULL iff the list had a NULL; NULL left NULL); " +
+			"(HF) newInMap, which computes that list-had-NULL flag when the rewrite happens, sets it iff the list holds a NULL-typed or NULL-valued element (lists of 0, 1 and 2 elements, and a NULL-typed left operand), and NewHashInTuple stores newInMap's flag, element set and comparison type and keeps the operands in position; " +
 			"(HG) the rewrite in applyHashIn happens only for an InTuple whose left operand passes hasSingleOutput and whose right operand passes isStatic and isConsistentType, with the operands passed on in the same positions; " +
 			"(BTW) Between.Eval, folded over the 16 pairs of outcomes of comparing the value with the lower and the upper bound, equals the Kleene AND of the folded tables of value >= lower and value <= upper; " +
 			"(PN) every arm of pushNotFiltersHelper (NOT NOT, De Morgan, negated comparisons, NOT BETWEEN => < OR >) returns an expression with the same three-valued table as its input.",
 		NotCovered: "equality of results of arbitrary equivalent statements; IN/EXISTS subqueries against their semi-/anti-join formulations (InSubquery.Eval's table depends on the hashed row cache and the rewrite in unnestInSubqueries carries no nullability guard to name: the NULL behaviour is the join executor's, C01's subject); join conditions in ON versus WHERE; CTE / derived-table inlining; constant folding versus column evaluation; " +
-			"the value of Compare itself (type coercion, collations) and whether hashing and comparison identify the same values (newInMap/HashOfSimple versus Compare: C07/C29); whether newInMap computes the has-NULL flag and element set it should; lists longer than two elements; the evaluation of the elements themselves",
+			"the value of Compare itself (type coercion, collations) and whether hashing and comparison identify the same values (newInMap/HashOfSimple versus Compare: C07/C29); the element set newInMap hashes (only its has-NULL flag is read); lists longer than two elements; the evaluation of the elements themselves",
 		Technique: "finite-domain abstract interpretation (AST folding over abstract compare outcomes and truth values) + composition of the folded tables",
 		Run:       func(c *Ctx) { runC06(c, c06Real) },
 		Fixture: func(c *Ctx, fx *Prog) {
-			expectFixture(c, fx, "c06: IN forgetting a NULL-valued element, hash-IN ignoring the NULL flag, BETWEEN with swapped bounds, Compare treating one NULL operand as a value, rewrite without the isStatic guard, NOT(>) pushed down to < must be reported", c06FixtureWant, func(fc *Ctx) { runC06(fc, c06Fix) })
+			expectFixture(c, fx, "c06: IN forgetting a NULL-valued element, hash-IN ignoring the NULL flag, BETWEEN with swapped bounds, Compare treating one NULL operand as a value, newInMap not flagging a NULL literal, rewrite without the isStatic guard, NOT(>) pushed down to < must be reported", c06FixtureWant, func(fc *Ctx) { runC06(fc, c06Fix) })
 		},
 		FixturePkgs: []string{"./testdata/c06/expr", "./testdata/c06/an"},
 	})
@@ -48,7 +49,7 @@ type c06Anchors struct {
 }
 
 var c06Real = c06Anchors{ex: "sql/expression", ty: "sql/types", hs: "sql/hash", sq: "sql", an: "sql/analyzer",
-	floors: map[string]int{"C06-CMP": 25, "C06-IN": 113, "C06-HIN": 14, "C06-HG": 9, "C06-BTW": 16, "C06-PN": 8}, outOfRangeDead: true}
+	floors: map[string]int{"C06-CMP": 25, "C06-IN": 113, "C06-HIN": 14, "C06-HF": 17, "C06-HG": 9, "C06-BTW": 16, "C06-PN": 8}, outOfRangeDead: true}
 var c06Fix = c06Anchors{ex: "testdata/c06/expr", ty: "testdata/c06/expr", hs: "testdata/c06/expr", sq: "testdata/c06/expr", an: "testdata/c06/an",
 	floors: map[string]int{}}
 
@@ -66,6 +67,10 @@ var c06FixtureWant = []string{
 	"C06-BTW:Between.Eval(val?lower:NULL,val?upper:>)",
 	"C06-CMP:comparison.Compare(left=NULL,right=value)",
 	"C06-CMP:comparison.Compare(left=value,right=NULL)",
+	"C06-HF:newInMap(list=[NULL-typed,NULL-typed])",
+	"C06-HF:newInMap(list=[NULL-typed,value])",
+	"C06-HF:newInMap(list=[NULL-typed])",
+	"C06-HF:newInMap(list=[value,NULL-typed])",
 	"C06-HG:applyHashIn(single=true,static=false,consistent=true)",
 	"C06-HIN:HashInTuple.Eval(left=value,convert=InRange,probe=miss,listHasNull=true)",
 	"C06-IN:InTuple.Eval(left=value,list=[NULL-valued,NULL-valued])",
@@ -272,6 +277,7 @@ func runC06(c *Ctx, a c06Anchors) {
 	c.Rule("C06-CMP", "comparison Eval tables over Compare's outcomes (<, =, >, NULL operand; for Equals also unequal-with-NULL-element) and comparison.Compare's report of a NULL operand", fl("C06-CMP"))
 	c.Rule("C06-IN", "InTuple.Eval over {left NULL/value} x lists of 1 and 2 abstract elements == Kleene OR of the folded Equals table per element; NewNotInTuple == Not(InTuple(left,right))", fl("C06-IN"))
 	c.Rule("C06-HIN", "HashInTuple.Eval over {left NULL/value} x conversion range x {hit, miss} x {list had NULL} yields what IN yields", fl("C06-HIN"))
+	c.Rule("C06-HF", "newInMap sets the has-NULL flag iff the list holds a NULL (lists of 0, 1, 2 abstract elements; NULL-typed left operand); NewHashInTuple stores newInMap's results and keeps the operands in position", fl("C06-HF"))
 	c.Rule("C06-HG", "applyHashIn rewrites only an InTuple that passes hasSingleOutput(left), isStatic(right), isConsistentType(right), operands kept in position", fl("C06-HG"))
 	c.Rule("C06-BTW", "Between.Eval over the 16 pairs of compare outcomes == Kleene AND of the folded tables of val >= lower and val <= upper", fl("C06-BTW"))
 	c.Rule("C06-PN", "each arm of pushNotFiltersHelper returns an expression with the same three-valued table as its input", fl("C06-PN"))
@@ -303,6 +309,7 @@ func runC06(c *Ctx, a c06Anchors) {
 	c06Cmp(w)
 	c06In(w)
 	c06HashIn(w, a)
+	c06HashFlag(w)
 	c06HashGuard(w)
 	c06Between(w)
 	c06PushNot(w)
